@@ -47,7 +47,12 @@ RULE = ("cases drawn from one PRNG (VERIF_SEED). COMPARED line by line with the 
         "strings, protocol =, custom =, impl_from/impl_deref, input_derive, default/rename/flatten/skip argument attributes, aliased "
         "Result, an encoding written after the documentation's example); op31 functions on the axum backend (Json, Rkyv, GetUrl->Cbor, "
         "text and byte streams, multipart, tower middleware, form redirect carrying a Cbor-encoded error, registry); op33 ByteStream::new "
-        "with error items; op34 TextStream<custom error>; op35 errors built by `?` / ServerFnError::new / server_fn_error!. "
+        "with error items; op34 TextStream<custom error>; op35 errors built by `?` / ServerFnError::new / server_fn_error!; op36 one of 14 "
+        "value shapes using serde's representation attributes (untagged / internally / adjacently tagged enums, flatten, rename, "
+        "default + skip_serializing_if, with-modules for bytes, newtype / unit / tuple structs, maps with integer and struct keys, "
+        "Option<Option<_>>, Result as data, Cow/Box strings, Vec of untagged), carrying empty and non-empty byte vectors (bytes on both "
+        "sides of 128, lengths around 32 and 256) and boundary numbers, through 13 serde-based encoding pairs; judged against the "
+        "baseline gen/c13_shapes.json of what the unchanged code carries per (function, shape, feature) class. "
         "A case is non-trivial when its payload is non-empty; distinct = distinct case hash.")
 TRUSTED = [
     "Coq 8.16.1 kernel (coqc; coqchk on the thorough tier); no axioms: all theorems of Properties_C13.v are 'Closed under the global context'",
@@ -89,6 +94,10 @@ ASSUMPTIONS = [
     "websocket: a server function body that fails before returning its stream is only required to produce a value on the client "
     "(real websocket clients see a failed handshake, not the body's error); items at indices whose frames were replaced are "
     "only required to be items (an error frame must arrive as an error item)",
+    "op36: a (function, shape, feature-class) the unchanged /repo does not carry unchanged (gen/c13_shapes.json, rebuilt with "
+    "gen.c13.learn_shapes() on the unchanged tree only: e.g. untagged / flatten through Postcard, Some(None) through Json, struct map "
+    "keys through Json, most shapes through serde_qs) or that the baseline never sampled is only required to yield a value; the "
+    "SerdeLite and Rkyv encodings have derives of their own and take no serde attributes",
     "a text-format encoder's output is valid UTF-8 (FormatType::into_encoded_string's documented precondition)",
 ]
 LEVEL_TEXT = ("Coq proofs, for every error variant / message / custom error type, every byte string, every base URL and every "
@@ -969,7 +978,258 @@ def ref_big(big):
     return [0, [[len(s), u64(fnv(s))], [nv, u64(fnv(hb))], [ni, u64(fnv(bytes(hi)))], [nb, u64(fnv(by))], [ns, u64(fnv(hs))]]]
 
 
+# ------------------------------------------------------------------ op 36: serde representation attributes
+SHAPE_FNS = ["json", "cbor", "msgpack", "postcard", "json->msgpack", "msgpack->json", "cbor->postcard", "postcard->cbor",
+             "posturl->json", "geturl->cbor", "patchmsgpack->putmsgpack", "patchcbor->putjson", "json->putpostcard"]
+SHAPE_NAMES = ["untagged", "internally-tagged", "adjacently-tagged", "flatten", "rename", "default+skip_serializing_if", "with",
+               "newtype/unit/tuple structs", "map<u32,_>", "map<struct,_>", "Option<Option<_>>", "Result as data",
+               "Cow/Box strings", "Vec<untagged>"]
+
+
+def _sb(rng):
+    """a byte vector: empty, one byte on either side of 128, a short mix, or one longer than 32"""
+    return list(rng.choice([b"", b"", b"\x00", b"\x7f", b"\x80", b"\xff", b"\x01\xc8\x00\xff", bytes(rand_bytes(rng, 6)),
+                            bytes(rng.randint(0, 255) for _ in range(rng.choice([31, 32, 33, 255, 256])))]))
+
+
+def _ss(rng):
+    return C.norm(rng.choice(["", "", "a", "t", "c", "1", "-1", "null", "true", gen_str(rng, 5)]))
+
+
+def _i64(rng):
+    return u64(rng.choice([0, 1, -1, 127, 128, 255, 256, 2 ** 31, 2 ** 53 + 1, 2 ** 63 - 1, -2 ** 63, rng.randint(-2 ** 63, 2 ** 63 - 1)]) % 2 ** 64)
+
+
+def _untagged(rng):
+    k = rng.randrange(5)
+    return [[0, _sb(rng)], [1, _i64(rng)], [2, _ss(rng)], [3, rng.choice([0, 127, 128, 255]), _sb(rng)], [4]][k]
+
+
+def gen_shape_value(rng, shape=None):
+    k = rng.randrange(len(SHAPE_NAMES)) if shape is None else shape
+    if k == 0:
+        return [0, _untagged(rng)]
+    if k == 1:
+        return [1] + rng.choice([[0, _sb(rng), u64(rng.choice([0, 1, 2 ** 32, 2 ** 64 - 1]))], [1, _ss(rng)], [2]])
+    if k == 2:
+        return [2] + rng.choice([[0, _sb(rng)], [1, _i64(rng), _ss(rng)], [2], [3, [] if rng.random() < 0.5 else [rng.choice([0, 255])]]])
+    if k == 3:
+        keys = sorted({rng.choice(["x", "y", "t", "extra", "k" + str(rng.randint(0, 9))]) for _ in range(rng.choice([0, 0, 1, 2]))},
+                      key=lambda s: s.encode())
+        return [3, rng.choice([0, 1, 2 ** 32 - 1]), _sb(rng), _ss(rng), [[C.norm(kk), rng.choice([0, 7, 2 ** 32 - 1])] for kk in keys]]
+    if k == 4:
+        return [4, _ss(rng), _sb(rng), rng.choice([0, 255, 2 ** 32 - 1]), [0] if rng.random() < 0.5 else [1, rng.choice([0, 128, 255])]]
+    if k == 5:
+        return [5, [] if rng.random() < 0.5 else [rng.choice([0, 1, 2 ** 32 - 1])], _sb(rng), rng.choice([0, 1, 65535]), _ss(rng)]
+    if k == 6:
+        return [6, _sb(rng), _sb(rng)]
+    if k == 7:
+        return [7, _sb(rng), u64(rng.choice([0, 255, 2 ** 64 - 1])), rng.choice([0, -1, 127, -128]), _sb(rng), _ss(rng)]
+    if k == 8:
+        keys = sorted({rng.choice([0, 1, 127, 128, 65536, 2 ** 32 - 1]) for _ in range(rng.choice([0, 1, 2, 3]))})
+        return [8, [[kk, _sb(rng)] for kk in keys]]
+    if k == 9:
+        keys = sorted({rng.choice([0, 1, 128, 255]) for _ in range(rng.choice([0, 1, 2]))})
+        return [9, [[kk, rng.choice([0, 255])] for kk in keys]]
+    if k == 10:
+        return [10] + rng.choice([[0], [1], [2, _sb(rng)]])
+    if k == 11:
+        return [11, 0, _sb(rng)] if rng.random() < 0.6 else [11, 1, _ss(rng)]
+    if k == 12:
+        return [12, _ss(rng), _ss(rng), _sb(rng)]
+    return [13, [_untagged(rng) for _ in range(rng.choice([0, 1, 2, 3]))]]
+
+
+def _emp(x):
+    return 0 if len(x) == 0 else 1
+
+
+def _text_class(b):
+    """strings the URL / untagged decoders may take for something else"""
+    t = bytes(b)
+    if t == b"":
+        return 0
+    try:
+        int(t.decode())
+        return 2
+    except (ValueError, UnicodeDecodeError):
+        pass
+    return 3 if t in (b"null", b"true", b"false") else 1
+
+
+def _num_class(pair):
+    v = (pair[0] << 32) | pair[1]
+    if v >= 2 ** 63:
+        return 2                      # negative i64 / above i64::MAX for u64
+    return 0 if v < 2 ** 31 else 1
+
+
+def _untagged_class(u):
+    k = u[0]
+    if k == 0:
+        return (0, _emp(u[1]))
+    if k == 1:
+        return (1, _num_class(u[1]))
+    if k == 2:
+        return (2, _text_class(u[1]))
+    if k == 3:
+        return (3, _emp(u[2]))
+    return (4,)
+
+
+def shape_class(fn, v):
+    """what decides whether a codec can carry the value: shape, variant, emptiness of collections / strings, option states,
+    coarse number classes.  The table gen/c13_shapes.json says, per class, what the UNCHANGED code does."""
+    k = v[0]
+    if k == 0:
+        f = _untagged_class(v[1])
+    elif k == 1:
+        f = (v[1],) + ((_emp(v[2]), _num_class(v[3])) if v[1] == 0 else (_text_class(v[2]),) if v[1] == 1 else ())
+    elif k == 2:
+        f = (v[1],) + ((_emp(v[2]),) if v[1] == 0 else (_num_class(v[2]), _text_class(v[3])) if v[1] == 1 else
+                       (len(v[2]),) if v[1] == 3 else ())
+    elif k == 3:
+        f = (_emp(v[2]), _text_class(v[3]), min(len(v[4]), 2), int(any(bytes(kv[0]) == b"t" for kv in v[4])))
+    elif k == 4:
+        f = (_text_class(v[1]), _emp(v[2]), v[4][0])
+    elif k == 5:
+        f = (len(v[1]), _emp(v[2]), int(v[3] != 0), _text_class(v[4]))
+    elif k == 6:
+        f = (_emp(v[1]), _emp(v[2]))
+    elif k == 7:
+        f = (_emp(v[1]), _num_class(v[2]), _emp(v[4]), _text_class(v[5]))
+    elif k == 8:
+        f = (min(len(v[1]), 2), int(any(len(kv[1]) == 0 for kv in v[1])), int(any(len(kv[1]) > 0 for kv in v[1])))
+    elif k == 9:
+        f = (min(len(v[1]), 2),)
+    elif k == 10:
+        f = (v[1],) + ((_emp(v[2]),) if v[1] == 2 else ())
+    elif k == 11:
+        f = (v[1], _emp(v[2]) if v[1] == 0 else _text_class(v[2]))
+    elif k == 12:
+        f = (_text_class(v[1]), _text_class(v[2]), _emp(v[3]))
+    else:
+        f = (min(len(v[1]), 2),) + tuple(sorted({_untagged_class(u) for u in v[1]}))
+    return "%d/%d/%s" % (fn, k, ",".join(str(x) for x in f).replace(" ", ""))
+
+
+def _load_shapes():
+    import json, os
+    path = os.path.join(os.path.dirname(os.path.abspath(__file__)), "c13_shapes.json")
+    try:
+        d = json.load(open(path))
+        return set(d["carried"]), set(d["not_carried"])
+    except (OSError, ValueError, KeyError):
+        return set(), set()
+
+
+SHAPES_CARRIED, SHAPES_NOT_CARRIED = _load_shapes()
+
+
+def gen_shapes(rng):
+    fn = rng.randrange(len(SHAPE_FNS))
+    return dict(case=[36, fn, gen_shape_value(rng), rng.choice([0, 0, 0, 0, 1]), gen_frame(rng)], kind="serde-attributes", compare=False)
+
+
+def oracle_shapes(case, impl):
+    remote, direct = impl
+    want = [1, [4, list(b"refused %d" % case[3])]] if case[3] else [0, case[2]]
+    if direct != want:
+        return "harness: direct call differs from the reference body"
+    if remote == direct:
+        return None
+    if not (isinstance(remote, list) and remote and remote[0] in (0, 1)):
+        return "unexpected observation"
+    cls = shape_class(case[1], case[2])
+    if cls not in SHAPES_CARRIED:
+        # a shape this codec cannot represent on the unchanged code (or a class the baseline never saw): a value, no panic
+        return None
+    return "remote call result differs from the direct call (%s through %s, class %s)" % (SHAPE_NAMES[case[2][0]], SHAPE_FNS[case[1]], cls)
+
+
+def _valid_untagged(u):
+    if not (isinstance(u, list) and u and u[0] in range(5)):
+        return False
+    k = u[0]
+    return ((k == 0 and len(u) == 2 and _is_bytes(u[1])) or (k == 1 and len(u) == 2 and _valid_u64(u[1]))
+            or (k == 2 and len(u) == 2 and _is_text(u[1])) or (k == 3 and len(u) == 3 and u[1] in range(256) and _is_bytes(u[2]))
+            or (k == 4 and len(u) == 1))
+
+
+def valid_shape_value(v):
+    if not (isinstance(v, list) and v and v[0] in range(len(SHAPE_NAMES))):
+        return False
+    k = v[0]
+    u32 = lambda x: isinstance(x, int) and 0 <= x < 2 ** 32
+    if k == 0:
+        return len(v) == 2 and _valid_untagged(v[1])
+    if k == 1:
+        return ((v[1] == 0 and len(v) == 4 and _is_bytes(v[2]) and _valid_u64(v[3])) or (v[1] == 1 and len(v) == 3 and _is_text(v[2]))
+                or (v[1] == 2 and len(v) == 2))
+    if k == 2:
+        return ((v[1] == 0 and len(v) == 3 and _is_bytes(v[2])) or (v[1] == 1 and len(v) == 4 and _valid_u64(v[2]) and _is_text(v[3]))
+                or (v[1] == 2 and len(v) == 2) or (v[1] == 3 and len(v) == 3 and _is_opt(v[2], lambda x: x in range(256))))
+    if k == 3:
+        keys = [bytes(kv[0]) for kv in v[4]]
+        return (len(v) == 5 and u32(v[1]) and _is_bytes(v[2]) and _is_text(v[3]) and keys == sorted(set(keys))
+                and all(_is_text(kv[0]) and u32(kv[1]) and bytes(kv[0]) not in (b"id", b"b", b"name") for kv in v[4]))
+    if k == 4:
+        return (len(v) == 5 and _is_text(v[1]) and _is_bytes(v[2]) and u32(v[3])
+                and (v[4] == [0] or (len(v[4]) == 2 and v[4][0] == 1 and v[4][1] in range(256))))
+    if k == 5:
+        return len(v) == 5 and _is_opt(v[1], u32) and _is_bytes(v[2]) and v[3] in range(65536) and _is_text(v[4])
+    if k == 6:
+        return len(v) == 3 and _is_bytes(v[1]) and _is_bytes(v[2])
+    if k == 7:
+        return len(v) == 6 and _is_bytes(v[1]) and _valid_u64(v[2]) and v[3] in range(-128, 128) and _is_bytes(v[4]) and _is_text(v[5])
+    if k == 8:
+        keys = [kv[0] for kv in v[1]]
+        return len(v) == 2 and keys == sorted(set(keys)) and all(u32(kv[0]) and _is_bytes(kv[1]) for kv in v[1])
+    if k == 9:
+        keys = [kv[0] for kv in v[1]]
+        return len(v) == 2 and keys == sorted(set(keys)) and all(kv[0] in range(256) and kv[1] in range(256) for kv in v[1])
+    if k == 10:
+        return (v[1] in (0, 1) and len(v) == 2) or (v[1] == 2 and len(v) == 3 and _is_bytes(v[2]))
+    if k == 11:
+        return len(v) == 3 and ((v[1] == 0 and _is_bytes(v[2])) or (v[1] == 1 and _is_text(v[2])))
+    if k == 12:
+        return len(v) == 4 and _is_text(v[1]) and _is_text(v[2]) and _is_bytes(v[3])
+    return len(v) == 2 and all(_valid_untagged(u) for u in v[1])
+
+
+def learn_shapes(n=120000, seed=7, harness=None):
+    """Rebuild gen/c13_shapes.json from the behaviour of the tree the harness binary was built from (run it on the UNCHANGED
+    /repo only): a class is 'carried' when every sampled value of it came back equal to the direct call, 'not_carried' when
+    at least one did not.  `python3 -c "from gen import c13; c13.learn_shapes()"` after `./check C13` has built the harness."""
+    import json, os, random, subprocess
+    harness = harness or os.path.join(C.ROOT if hasattr(C, "ROOT") else "/verif", ".build/target/serverfn/release/h_serverfn")
+    rng = random.Random(seed)
+    items = []
+    for fn in range(len(SHAPE_FNS)):
+        for shape in range(len(SHAPE_NAMES)):
+            for _ in range(n // (len(SHAPE_FNS) * len(SHAPE_NAMES))):
+                items.append([36, fn, gen_shape_value(rng, shape), 0, gen_frame(rng)])
+    out = subprocess.run([harness, "c13"], input="\n".join(C.sx(c) for c in items) + "\n", capture_output=True, text=True).stdout.splitlines()
+    assert len(out) == len(items)
+    good, bad = {}, {}
+    for c, o in zip(items, out):
+        cls = shape_class(c[1], c[2])
+        impl = C.parse_sx(o) if not o.startswith("!") else None
+        ok = impl is not None and impl[0] == impl[1]
+        (good if ok else bad)[cls] = (good if ok else bad).get(cls, 0) + 1
+    mixed = sorted(k for k in good if k in bad)
+    carried = sorted(k for k in good if k not in bad)
+    not_carried = sorted(bad)
+    path = os.path.join(os.path.dirname(os.path.abspath(__file__)), "c13_shapes.json")
+    json.dump({"comment": "op 36 baseline: which (function/shape/features) classes the unchanged /repo carries unchanged; written by "
+                          "gen.c13.learn_shapes()", "carried": carried, "not_carried": not_carried, "mixed": mixed},
+              open(path, "w"), indent=0)
+    return len(carried), len(not_carried), mixed
+
+
 def gen_audit(rng):
+    if rng.random() < 0.12:
+        return gen_shapes(rng)
     r = rng.random()
     if r < 0.22:
         return gen_ws(rng)
@@ -1085,6 +1345,8 @@ def gen_axum(rng):
 
 def oracle_audit(case, impl):
     op = case[0]
+    if op == 36:
+        return oracle_shapes(case, impl)
     if op == 22:
         return oracle_ws(case, impl)
     if op in (23, 24, 25, 26):
@@ -1293,6 +1555,8 @@ def _valid_shape(s):
 
 def valid_audit(c):
     op = c[0]
+    if op == 36:
+        return (len(c) == 5 and c[1] in range(len(SHAPE_FNS)) and valid_shape_value(c[2]) and c[3] in (0, 1) and _valid_frame(c[4]))
     if op == 22:
         if c[1] == 13:
             return len(c) == 2
@@ -1418,6 +1682,9 @@ def valid_audit(c):
 
 def describe_audit(case):
     op = case[0]
+    if op == 36:
+        return "a_%s(%s value %r, fail=%d) frames=%r [class %s]: remote vs direct" % (
+            SHAPE_FNS[case[1]], SHAPE_NAMES[case[2][0]], case[2], case[3], case[4], shape_class(case[1], case[2]))
     if op == 22:
         if case[1] == 13:
             return "plain GET (no upgrade) to the websocket function ws_json on the generic platform"
